@@ -31,7 +31,7 @@ protected:
 };
 
 struct Val { std::string form, text; double num = 0; };
-struct Fn { std::string ns, name; };
+struct Fn { std::string ns, name; bool global = false; };
 struct Pool {
     std::map<std::string, std::string> ss, src;
     std::map<std::string, Val> vals;
@@ -76,11 +76,13 @@ static void setParam(XalanTransformer& t, const std::string& k, const std::strin
 }
 static void installFn(XalanTransformer& t, const std::string& f) {
     const Fn& fn = pool.fns.at(f);
-    t.installExternalFunction(XalanDOMString(fn.ns.c_str()), XalanDOMString(fn.name.c_str()), FunctionF());
+    if (fn.global) XalanTransformer::installExternalFunctionGlobal(XalanDOMString(fn.ns.c_str()), XalanDOMString(fn.name.c_str()), FunctionF());
+    else t.installExternalFunction(XalanDOMString(fn.ns.c_str()), XalanDOMString(fn.name.c_str()), FunctionF());
 }
 static void uninstallFn(XalanTransformer& t, const std::string& f) {
     const Fn& fn = pool.fns.at(f);
-    t.uninstallExternalFunction(XalanDOMString(fn.ns.c_str()), XalanDOMString(fn.name.c_str()));
+    if (fn.global) XalanTransformer::uninstallExternalFunctionGlobal(XalanDOMString(fn.ns.c_str()), XalanDOMString(fn.name.c_str()));
+    else t.uninstallExternalFunction(XalanDOMString(fn.ns.c_str()), XalanDOMString(fn.name.c_str()));
 }
 
 typedef std::map<std::string, std::string> Params;   // name -> value name ("none" = unset), total over the names seen
@@ -125,7 +127,7 @@ static Outcome runFresh(const std::string& ss, const std::string& src, const Par
     XalanTransformer t;
     t.setWarningStream(0);
     for (auto& kv : params) if (kv.second != "none") setParam(t, kv.first, kv.second);
-    for (auto& kv : fns) if (kv.second) installFn(t, kv.first);
+    for (auto& kv : fns) if (kv.second && !pool.fns.at(kv.first).global) installFn(t, kv.first);   // the global ones are installed (process-wide) right now
     std::istringstream xml(text(pool.src, src));
     SSInput xsl(ss);
     std::ostringstream out;
@@ -230,6 +232,7 @@ static void runCase(const J& c) {
         printf(",\"errEmpty\":%s%s}\n", tf(errEmpty(t)), residueJson(t).c_str());
         fflush(stdout);
     }
+    for (auto& kv : fns) if (kv.second && pool.fns.at(kv.first).global) uninstallFn(t, kv.first);    // the process-wide table is empty again for the next case
     // the transformer is destroyed here with whatever handles are still live (ASan sees double frees / leaks of the protocol)
 }
 
@@ -245,9 +248,9 @@ int main(int argc, char** argv) {
         const J& p = head.at("pool");
         for (auto& kv : p.at("ss").o) pool.ss[kv.first] = kv.second.s;
         for (auto& kv : p.at("src").o) pool.src[kv.first] = kv.second.s;
-        for (auto& kv : p.at("vals").o) { Val v; v.form = kv.second.str("form"); v.text = kv.second.str("text"); v.num = (double)kv.second.num("num"); pool.vals[kv.first] = v; }
+        for (auto& kv : p.at("vals").o) { Val v; v.form = kv.second.str("form"); v.text = kv.second.str("text"); v.num = (double)kv.second.num("num"); if (kv.second.str("sign") == "-") v.num = -v.num; pool.vals[kv.first] = v; }
         pool.base = p.str("base");
-        for (auto& kv : p.at("fns").o) { Fn f; f.ns = kv.second.str("ns"); f.name = kv.second.str("name"); pool.fns[kv.first] = f; }
+        for (auto& kv : p.at("fns").o) { Fn f; f.ns = kv.second.str("ns"); f.name = kv.second.str("name"); f.global = kv.second.str("scope") == "global"; pool.fns[kv.first] = f; }
         for (size_t i = 1; i < lines.size(); ++i) {
             J c = parseJson(lines[i]);
             runCase(c);
